@@ -1,7 +1,8 @@
 (* C15 — Follow mode delivers every appended byte exactly once, in order.  (claimed: partial)
    Property theorems only.  Model: Model/Follow.v — two transition systems, one rule per atomic action:
    [nstep] (NotifyFollowReader.Read + the fsnotify goroutine + the writer; the delete handler as repaired by
-   fixes/C15-notify-stale-delete.patch, flag true) and [pstep] (PollingFollowReader.Read + the writer).
+   fixes/C15-notify-stale-delete.patch, flag true) and [pstep] (PollingFollowReader.Read + the writer; the plain-follow Stat rule as repaired by
+   fixes/C15-poll-plain-recreate.patch, flag true).
    Every theorem is for EVERY interleaving ([nreach]/[preach] = any finite step sequence from the state after
    followreader.New (+ Drain for --tail)) of histories restricted as the property states: a file is removed
    only after everything written was delivered ([nok]/[pok], label LRemove); polling: a file other than the
@@ -10,6 +11,7 @@
    path, incarnation after incarnation; [ndel]/[pdel] = every byte Read has returned.
    Proofs: Proofs/Follow{Base,Notify,Poll,Refute,Check,Live,Main,AsFound}.v. *)
 From Coq Require Import List NArith Arith Bool.
+From RareV Require Model.Skel Gen.GenSkel.
 From RareV Require Import Base.Hex Model.Follow Proofs.FollowBase Proofs.FollowNotify Proofs.FollowPoll
   Proofs.FollowRefute Proofs.FollowCheck Proofs.FollowLive Proofs.FollowMain Proofs.FollowAsFound.
 Import ListNotations.
@@ -69,8 +71,12 @@ Theorem C15_blocks_not_ends_poll : forall reopen c0 tail tr s, (c0 = None -> reo
 Proof. exact m_blocks_poll. Qed.
 Print Assumptions C15_blocks_not_ends_poll.
 
-(* "plain follow ends the stream": after the removal the delete signal stays pending (or its event queued) until
-   the stream has ended, and the select can take it; polling: os.Stat on the missing path ends the stream *)
+(* "plain follow ends the stream": notify - after the removal the delete signal stays pending (or its event queued)
+   until the stream has ended, and the select can take it; polling (Stat rule as repaired by
+   fixes/C15-poll-plain-recreate.patch, applied) - once the open file has been removed, the os.Stat the poller
+   performs when its read attempts have run out ends the stream and is the only thing the reader can do there,
+   WHATEVER happened to the path since (still missing, re-created empty or with content, re-created several times):
+   the comparison is with the open file (os.SameFile), not with the existence of the path *)
 Theorem C15_remove_ends_notify : forall reopen c0 tail tr s, nreach reopen c0 tail tr s ->
   reopen = false -> past (nenv s) <> [] -> npcs s <> NEnded ->
   (sigD s = true \/ In EvRemove (queue s)) /\
@@ -78,15 +84,26 @@ Theorem C15_remove_ends_notify : forall reopen c0 tail tr s, nreach reopen c0 ta
 Proof. exact m_remove_ends_notify. Qed.
 Print Assumptions C15_remove_ends_notify.
 Theorem C15_remove_ends_poll : forall reopen c0 tail tr s, (c0 = None -> reopen = true) -> preach reopen c0 tail tr s ->
-  reopen = false -> present (penv s) = false -> ppcs s = PStat ->
-  past (penv s) <> [] /\ exists s', pstep reopen s LEof s'.
+  reopen = false -> ppcs s = PStat ->
+  forall i off, pfd s = Some (i, off) -> i < length (past (penv s)) ->
+  (exists s', pstep reopen true s LEof s' /\ ppcs s' = PEnded) /\
+  (forall l s', is_env l = false -> pstep reopen true s l s' -> l = LEof /\ ppcs s' = PEnded).
 Proof. exact m_remove_ends_poll. Qed.
 Print Assumptions C15_remove_ends_poll.
+(* finding C15-poll-plain-recreate (fixed in /repo): with the Stat rule AS FOUND (flag false: the stream ends only
+   when os.Stat fails) a removal after drain followed by a re-creation of the path before the poller looks is never
+   noticed - the state is reachable and no sequence of reader steps from it ends the stream *)
+Theorem C15_remove_ends_poll_asfound_refuted :
+  exists tr s, run (pstep false false) (pok []) (pinit (Some cAB) false) tr s /\
+    ppcs s = PStat /\ pfd s = Some (0, 2) /\ past (penv s) = [cAB] /\ present (penv s) = true /\
+    forall tr' s', run (pstep false false) (fun _ l => is_env l = false) s tr' s' -> ppcs s' <> PEnded.
+Proof. exact poll_plain_asfound_never_ends. Qed.
+Print Assumptions C15_remove_ends_poll_asfound_refuted.
 (* ... and after EOF only the writer and the watcher move: nothing is delivered any more *)
 Theorem C15_ended_silent_notify : forall reopen rp s l s', npcs s = NEnded -> nstep reopen rp s l s' ->
   is_env l = true \/ l = LWatch.
 Proof. exact m_ended_silent_notify. Qed.
-Theorem C15_ended_silent_poll : forall reopen s l s', ppcs s = PEnded -> pstep reopen s l s' -> is_env l = true.
+Theorem C15_ended_silent_poll : forall reopen rp s l s', ppcs s = PEnded -> pstep reopen rp s l s' -> is_env l = true.
 Proof. exact m_ended_silent_poll. Qed.
 Print Assumptions C15_ended_silent_notify.
 
@@ -135,7 +152,7 @@ Proof. exact asfound_rotation_example. Qed.
 
 (* the polling proviso of the property is needed: removal after drain alone allows a gap *)
 Theorem C15_poll_proviso_needed :
-  exists tr s, run (pstep true) (fun s l => match l with LRemove => drained [] (penv s) (pdel s) | _ => True end)
+  exists tr s, run (pstep true true) (fun s l => match l with LRemove => drained [] (penv s) (pdel s) | _ => True end)
                    (pinit (Some cAB) false) tr s /\
                forall rest, all (penv s) <> [] ++ pdel s ++ rest.
 Proof. exact poll_proviso_needed. Qed.
@@ -195,16 +212,16 @@ Print Assumptions C15_eventual_reopen_notify.
 (* polling, file in place: pmu = 4 undelivered bytes + {os.Stat: 2, os.Open: 1, read: 0} *)
 Theorem C15_measure_poll : forall reopen c0 tail tr s, (c0 = None -> reopen = true) -> preach reopen c0 tail tr s ->
   forall off l s', pfd s = Some (ino (penv s), off) -> present (penv s) = true ->
-  off < length (curc (penv s)) -> is_env l = false -> pstep reopen s l s' ->
+  off < length (curc (penv s)) -> is_env l = false -> pstep reopen true s l s' ->
   pmu (pre_of c0 tail) s' < pmu (pre_of c0 tail) s.
 Proof. exact m_measure_poll. Qed.
 Print Assumptions C15_measure_poll.
 Theorem C15_progress_poll : forall reopen (s : pstate) off, pfd s = Some (ino (penv s), off) -> present (penv s) = true ->
-  off < length (curc (penv s)) -> ppcs s <> PEnded -> exists l s', is_env l = false /\ pstep reopen s l s'.
+  off < length (curc (penv s)) -> ppcs s <> PEnded -> exists l s', is_env l = false /\ pstep reopen true s l s'.
 Proof. intros reopen s. exact (pprogress reopen s). Qed.
 Theorem C15_eventual_poll : forall reopen c0 tail tr s, (c0 = None -> reopen = true) -> preach reopen c0 tail tr s ->
   fd_current (penv s) (pfd s) = true -> ppcs s <> PEnded ->
-  must (pstep reopen) (pdrained c0 tail) (pmu (pre_of c0 tail) s) s.
+  must (pstep reopen true) (pdrained c0 tail) (pmu (pre_of c0 tail) s) s.
 Proof. exact m_eventual_poll. Qed.
 Print Assumptions C15_eventual_poll.
 (* polling, re-open, a re-created non-empty file not opened yet, strictly shorter than readBytes (or nothing read
@@ -214,7 +231,7 @@ Theorem C15_eventual_reopen_poll : forall reopen c0 tail tr s, (c0 = None -> reo
   reopen = true -> fd_current (penv s) (pfd s) = false -> present (penv s) = true ->
   0 < size (penv s) -> size (penv s) < rb s \/ rb s = 0 ->
   pre_of c0 tail ++ pdel s = concat (past (penv s)) ->
-  must (pstep reopen) (pdrained c0 tail) (cw s + 4 * undel (pre_of c0 tail) (penv s) (pdel s)) s.
+  must (pstep reopen true) (pdrained c0 tail) (cw s + 4 * undel (pre_of c0 tail) (penv s) (pdel s)) s.
 Proof. exact m_eventual_reopen_poll. Qed.
 Print Assumptions C15_eventual_reopen_poll.
 
@@ -235,23 +252,33 @@ Theorem C15_sibling_step_notify : forall reopen rp s s', nstep reopen rp s LSibl
   nenv s' = nenv s /\ nfd s' = nfd s /\ npcs s' = npcs s /\ sigW s' = sigW s /\ sigD s' = sigD s /\ ndel s' = ndel s /\
   queue s' = queue s ++ [EvOther].
 Proof. exact sibling_step_notify. Qed.
-Theorem C15_sibling_step_poll : forall reopen s s', pstep reopen s LSibling s' -> s' = s.
+Theorem C15_sibling_step_poll : forall reopen rp s s', pstep reopen rp s LSibling s' -> s' = s.
 Proof. exact sibling_step_poll. Qed.
 Print Assumptions C15_sibling_step_notify.
 
 (* the boolean form evaluated by the correspondence holds for, and the functional projection [model] agrees
-   with, every quiescent run (everything written has been delivered; ended iff plain follow and removed) *)
+   with, every quiescent run: everything that has to be delivered ([want]: re-open = everything written; plain
+   follow = the first incarnation only - the stream ends at its removal whatever happens to the path afterwards,
+   nothing of a re-created file is expected, [wanted] in [expected]) has been delivered; ended iff plain follow
+   and removed *)
 Theorem C15_check_sound_notify : forall reopen c0 tail tr s,
-  nreach reopen c0 tail tr s -> pre_of c0 tail ++ ndel s = all (nenv s) ->
+  nreach reopen c0 tail tr s -> pre_of c0 tail ++ ndel s = want reopen (nenv s) ->
   nended s = negb reopen && removed_b (nenv s) ->
   let i := mkcin false reopen tail c0 (filter is_env tr) in
   C15_check i (ndel s, termN (nended s), tr) = true /\ obs_eqb (model i) (ndel s, termN (nended s), tr) = true.
 Proof. exact check_sound_notify. Qed.
 Print Assumptions C15_check_sound_notify.
 Theorem C15_check_sound_poll : forall reopen c0 tail, (c0 = None -> reopen = true) -> forall tr s,
-  preach reopen c0 tail tr s -> pre_of c0 tail ++ pdel s = all (penv s) ->
+  preach reopen c0 tail tr s -> pre_of c0 tail ++ pdel s = want reopen (penv s) ->
   pended s = negb reopen && removed_b (penv s) ->
   let i := mkcin true reopen tail c0 (filter is_env tr) in
   C15_check i (pdel s, termN (pended s), tr) = true /\ obs_eqb (model i) (pdel s, termN (pended s), tr) = true.
 Proof. exact check_sound_poll. Qed.
 Print Assumptions C15_check_sound_poll.
+
+(* translator obligation (tools/gentables -> Gen/GenSkel.v, regenerated from pkg/extractor/batchers/batcher.go on
+   every run): the loop behind TailFilesToChan, syncReaderToBatcherWithTimeFlush, sends its batch and continues
+   with a FRESH slice, also after a timed flush of a partial batch - `batch = batch[:0]` would let the next lines
+   overwrite entries of a batch the consumer still holds: followed lines lost and duplicated *)
+Theorem C15_tail_batches_fresh : Skel.sync_reader_ok GenSkel.skel_sync_reader_flush = true.
+Proof. vm_compute. reflexivity. Qed.
